@@ -119,15 +119,24 @@ func (g *Generator) makeStr(typeName string) {
 	}
 
 	var nameList []string
-	valueMap := make(map[string]int64)
+	valueMap := make(map[string]string)
 	strMap := make(map[string]string)
 	sort.Slice(values, func(i, j int) bool {
+		if values[i].signed {
+			return int64(values[i].value) < int64(values[j].value)
+		}
 		return values[i].value < values[j].value
 	})
 	var enums []string
 	for _, v := range values {
 		nameList = append(nameList, v.name)
-		valueMap[v.name] = int64(v.value)
+		if !v.signed {
+			valueMap[v.name] = fmt.Sprintf("%d", v.value)
+		} else if int64(v.value) < 0 {
+			valueMap[v.name] = fmt.Sprintf("(%d)", int64(v.value))
+		} else {
+			valueMap[v.name] = fmt.Sprintf("%d", int64(v.value))
+		}
 		shortName := strings.TrimPrefix(v.name, typeName)
 		strMap[v.name] = shortName
 		enums = append(enums, fmt.Sprintf("'%s'", shortName))
